@@ -303,3 +303,236 @@ Proof.
   destruct (insert_after_car _ _ _ _ _ _ 1 (AR id) Hwf HA' Hcar) as (rs' & Hins' & _).
   rewrite Hins' in H. cbn [bind] in H. destruct m; discriminate.
 Qed.
+
+(* ------------------------------------------------------------------ add_window *)
+
+Definition win_sparse (sparse : option bool) : bool :=
+  match sparse with Some true => true | _ => false end.
+Definition win_ratio (m wm : mmap) (sparse : option bool) : Z :=
+  if win_sparse sparse then 1 else m_dw m / m_dw wm.
+Definition win_queries (wm : mmap) (n : option name) : list name :=
+  match n with None => m_names wm | Some x => [x] end.
+Definition win_name_ok (nm : option rawname) (n : option name) : Prop :=
+  match nm with None => n = None | Some rn => exists x, mk_name rn = Ok x /\ n = Some x end.
+Definition win_alignment (m wm : mmap) (r : Z) : Z := Z.max (m_al m) (m_aw wm / r).
+
+Lemma add_window_inv m wid wm nm addr sparse m' s e r :
+  add_window m wid wm nm addr sparse = Ok (m', (s, e, r)) ->
+  exists n rs,
+    m_frozen m = false /\ has_win m wid = false /\ m_dw wm <= m_dw m /\
+    win_name_ok nm n /\
+    is_available (m_names m) (win_queries wm n) = Ok true /\
+    r = win_ratio m wm sparse /\
+    compute_addr_range m addr (VInt (2 ^ m_aw wm / r)) (win_alignment m wm r) = Ok (s, e) /\
+    rm_insert (m_ranges m) {| e_start := s; e_stop := e; e_step := r; e_asg := AW wid |} = Ok rs /\
+    m' = MM (m_aw m) (m_dw m) (m_al m) rs (m_ress m)
+            (m_wins m ++ [({| w_id := wid; w_name := n; w_start := s; w_stop := e; w_step := r |},
+                           set_frozen wm)])
+            (m_names m ++ win_queries wm n) e (m_frozen m).
+Proof.
+  unfold add_window. cbv zeta. intros H.
+  change (match sparse with Some true => true | _ => false end) with (win_sparse sparse) in H.
+  assert (Hr : (if negb (win_sparse sparse) then m_dw m / m_dw wm else 1) = win_ratio m wm sparse).
+  { unfold win_ratio. destruct (win_sparse sparse); reflexivity. }
+  rewrite !Hr in H. clear Hr. rewrite !shiftl1 in H.
+  set (r0 := win_ratio m wm sparse) in *.
+  apply bind_ok in H as (u1 & Hfr & H). apply check_ok in Hfr.
+  apply bind_ok in H as (u2 & Hhas & H). apply check_ok in Hhas.
+  apply bind_ok in H as (u3 & Hdw & H). apply check_ok in Hdw.
+  apply bind_ok in H as (u4 & _ & H).
+  apply bind_ok in H as (n & Hn & H).
+  change (match n with None => m_names wm | Some x => [x] end) with (win_queries wm n) in H.
+  apply bind_ok in H as (av & Hav & H).
+  apply bind_ok in H as (u5 & Hchk & H). apply check_ok in Hchk. subst av.
+  apply bind_ok in H as (u6 & _ & H).
+  apply bind_ok in H as (u7 & _ & H).
+  apply bind_ok in H as ([s0 e0] & Hcar & H).
+  apply bind_ok in H as (rs & Hins & H).
+  destruct m as [a d l ranges ress wins names next f]. msimpl.
+  injection H as <- <- <- <-. exists n, rs.
+  repeat split; auto.
+  - destruct f; [discriminate|reflexivity].
+  - destruct (has_win _ wid); [discriminate|reflexivity].
+  - lia.
+  - unfold win_name_ok. destruct nm as [rn|].
+    + apply bind_ok in Hn as (x & Hx & Hn). injection Hn as <-. eauto.
+    + injection Hn as <-. reflexivity.
+Qed.
+
+Lemma win_ratio_ge1 m wm sparse : 0 < m_dw wm -> m_dw wm <= m_dw m -> 1 <= win_ratio m wm sparse.
+Proof.
+  intros H0 Hle. unfold win_ratio. destruct (win_sparse sparse); [lia|].
+  apply Z.div_le_lower_bound; lia.
+Qed.
+
+Lemma win_alignment_ge m wm r : m_al m <= win_alignment m wm r.
+Proof. unfold win_alignment. lia. Qed.
+
+Lemma win_queries_ok wm nm n : wf_map wm -> win_name_ok nm n -> names_ok (win_queries wm n).
+Proof.
+  intros Hwf Hn. destruct nm as [rn|]; cbn [win_name_ok] in Hn.
+  - destruct Hn as (x & Hx & ->). cbn [win_queries names_ok].
+    split; [eapply mk_name_nonempty; eauto|]. split; [intros r []|exact I].
+  - subst n. cbn [win_queries]. apply (wf_names _ Hwf).
+Qed.
+
+Lemma add_window_wf m wid wm nm addr sparse m' s e r :
+  wf_map m -> wf_map wm -> add_window m wid wm nm addr sparse = Ok (m', (s, e, r)) -> wf_map m'.
+Proof.
+  intros Hwf Hwm H.
+  apply add_window_inv in H as (n & rs & Hfr & Hhas & Hdwle & Hn & Hav & Hr & Hcar & Hins & ->).
+  pose proof (win_alignment_ge m wm r) as HA.
+  pose proof (win_ratio_ge1 m wm sparse (wf_dw _ Hwm) Hdwle) as Hr1. rewrite <- Hr in Hr1.
+  destruct (car_placed _ _ _ _ _ _ Hwf HA Hcar) as (Hs0 & Hse & He & Hsm & Hem & Hf).
+  destruct (insert_after_car _ _ _ _ _ _ r (AW wid) Hwf HA Hcar) as (rs' & Hins' & Hch' & Hin').
+  rewrite Hins in Hins'. injection Hins' as <-.
+  pose proof (win_queries_ok wm nm n Hwm Hn) as Hq.
+  destruct Hwf as [Haw Hdw Hal Hch Hent Hnext Hnames].
+  constructor; msimpl; auto.
+  - intros x Hx. apply Hin' in Hx as [->|Hx].
+    + unfold entry_ok; msimpl. split; [exact He|]. split; [exact Hr1|].
+      eexists. rewrite find_win_app, (has_win_find _ _ Hhas). msimpl. rewrite Z.eqb_refl.
+      split; [reflexivity|]. msimpl. auto.
+    + apply entry_ok_win_app. auto.
+  - split; [lia|exact Hem].
+  - apply is_available_true in Hav as (Hok & Hcross); [|apply names_ok_nonempty; exact Hq].
+    apply names_ok_app; auto.
+    intros a q Ha Hq'.
+    rewrite conflicts_sym; [apply Hcross; auto| |].
+    + apply (names_ok_nonempty _ Hnames). exact Ha.
+    + apply (names_ok_nonempty _ Hq). exact Hq'.
+Qed.
+
+Lemma add_window_err m wid wm nm addr sparse e :
+  wf_map m -> wf_map wm -> add_window m wid wm nm addr sparse = Err e ->
+  e = ValueError \/ e = TypeError.
+Proof.
+  intros Hwf Hwm. unfold add_window. cbv zeta. intros H.
+  apply bind_err in H as [H|(u1 & _ & H)]; [apply check_err in H; auto|].
+  apply bind_err in H as [H|(u2 & _ & H)]; [apply check_err in H; auto|].
+  apply bind_err in H as [H|(u3 & _ & H)]; [apply check_err in H; auto|].
+  apply bind_err in H as [H|(u4 & _ & H)].
+  { destruct (negb (m_dw wm =? m_dw m)); [|discriminate].
+    apply bind_err in H as [H|(u5 & _ & H)]; apply check_err in H; auto. }
+  apply bind_err in H as [H|(n & Hn & H)].
+  { destruct nm as [rn|]; [|discriminate].
+    apply bind_err in H as [H|(x & _ & H)]; [apply mk_name_err in H; auto|discriminate]. }
+  assert (Hnok : win_name_ok nm n).
+  { unfold win_name_ok. destruct nm as [rn|].
+    - apply bind_ok in Hn as (x & Hx & Hn). injection Hn as <-. eauto.
+    - injection Hn as <-. reflexivity. }
+  change (match n with None => m_names wm | Some x => [x] end) with (win_queries wm n) in H.
+  destruct (is_available_total (m_names m) (win_queries wm n)) as (b & Hb).
+  { apply names_ok_nonempty, (wf_names _ Hwf). }
+  { eapply win_queries_ok; eauto. }
+  rewrite Hb in H. cbn [bind] in H.
+  apply bind_err in H as [H|(u5 & _ & H)]; [apply check_err in H; auto|].
+  apply bind_err in H as [H|(u6 & _ & H)]; [apply check_err in H; auto|].
+  apply bind_err in H as [H|(u7 & _ & H)]; [apply check_err in H; auto|].
+  apply bind_err in H as [H|([s0 e0] & Hcar & H)]; [apply car_err in H; auto|].
+  match type of Hcar with compute_addr_range _ _ _ ?A = _ => assert (HA : m_al m <= A) by lia end.
+  match type of H with context [{| e_start := _; e_stop := _; e_step := ?st; e_asg := _ |}] =>
+    destruct (insert_after_car _ _ _ _ _ _ st (AW wid) Hwf HA Hcar) as (rs' & Hins' & _) end.
+  rewrite Hins' in H. cbn [bind] in H. destruct m; discriminate.
+Qed.
+
+(* ------------------------------------------------------------------ the other operations *)
+
+Lemma set_frozen_wf m : wf_map m -> wf_map (set_frozen m).
+Proof. intros [H1 H2 H3 H4 H5 H6 H7]. destruct m. constructor; msimpl; auto. Qed.
+
+Lemma new_map_wf aw dw al m : new_map aw dw al = Ok m -> wf_map m.
+Proof.
+  unfold new_map. intros H.
+  apply bind_ok in H as (u1 & H1 & H). apply check_ok in H1.
+  apply bind_ok in H as (u2 & H2 & H). apply check_ok in H2.
+  apply bind_ok in H as (u3 & H3 & H). apply check_ok in H3.
+  injection H as <-.
+  destruct aw as [a| |]; cbn [posint] in H1; try discriminate.
+  destruct dw as [d| |]; cbn [posint] in H2; try discriminate.
+  destruct al as [l| |]; cbn [nonneg] in H3; try discriminate.
+  cbn [zof]. constructor; msimpl; cbn [chain names_ok]; auto; try lia.
+  - intros x [].
+  - split; [lia|]. apply Z.mod_0_l. pose proof (pow2_pos l); lia.
+Qed.
+
+Lemma new_map_err aw dw al e : new_map aw dw al = Err e -> e = ValueError.
+Proof.
+  unfold new_map. intros H.
+  apply bind_err in H as [H|(u1 & _ & H)]; [eapply check_err; eauto|].
+  apply bind_err in H as [H|(u2 & _ & H)]; [eapply check_err; eauto|].
+  apply bind_err in H as [H|(u3 & _ & H)]; [eapply check_err; eauto|discriminate].
+Qed.
+
+Lemma align_to_inv m a m' n : align_to m a = Ok (m', n) ->
+  exists z, a = VInt z /\ 0 <= z /\ n = align_up (m_next m) (Z.max z (m_al m)) /\ m' = set_next m n.
+Proof.
+  unfold align_to. intros H. apply bind_ok in H as (u & Hc & H). apply check_ok in Hc.
+  injection H as <- <-. destruct a as [z| |]; cbn [nonneg] in Hc; try discriminate.
+  exists z. cbn [zof]. repeat split; auto. lia.
+Qed.
+
+Lemma align_to_err m a e : align_to m a = Err e -> e = ValueError.
+Proof.
+  unfold align_to. intros H.
+  apply bind_err in H as [H|(u & _ & H)]; [eapply check_err; eauto|discriminate].
+Qed.
+
+Lemma align_to_wf m a m' n : wf_map m -> align_to m a = Ok (m', n) -> wf_map m'.
+Proof.
+  intros [H1 H2 H3 H4 H5 (H6 & H6') H7] H.
+  apply align_to_inv in H as (z & -> & Hz & -> & ->).
+  assert (HA : 0 <= Z.max z (m_al m)) by lia.
+  pose proof (align_up_ge (m_next m) _ HA). pose proof (align_up_mod (m_next m) _ HA) as Hm.
+  apply (mod_pow2_le _ _ (m_al m)) in Hm; [|lia].
+  destruct m. constructor; msimpl; auto. split; [lia|exact Hm].
+Qed.
+
+(* T8: the cursor probe align_to(0) changes nothing and returns the cursor *)
+Lemma align_to_zero m : wf_map m -> align_to m (VInt 0) = Ok (m, m_next m).
+Proof.
+  intros [H1 H2 H3 H4 H5 (H6 & H6') H7]. unfold align_to. cbn [nonneg zof].
+  change (0 <=? 0) with true. cbn [check bind].
+  rewrite Z.max_r by lia. rewrite align_up_id by auto. destruct m; reflexivity.
+Qed.
+
+(* ------------------------------------------------------------------ worlds *)
+
+Lemma wf_world_nth w i m : wf_world w -> nth_error w i = Some m -> wf_map m.
+Proof. intros Hw Hn. apply nth_error_In in Hn. eapply Forall_forall in Hw; eauto. Qed.
+
+Lemma wstep_wf w o : wf_world w -> wf_world (fst (wstep w o)).
+Proof.
+  intros Hw. unfold wf_world in *. destruct o as [aw dw al|mi id comp nm size addr al|mi wo nm addr sparse|mi a|mi]; cbn [wstep].
+  - destruct (new_map aw dw al) as [m|e] eqn:E; cbn [fst]; [|exact Hw].
+    apply Forall_app. split; [exact Hw|]. constructor; [|constructor]. eapply new_map_wf; eauto.
+  - destruct (nth_error w mi) as [m|] eqn:Em; cbn [fst]; [|exact Hw].
+    destruct (add_resource m id comp nm size addr al) as [[m' [s e]]|e] eqn:E; cbn [fst]; [|exact Hw].
+    apply Forall_set_nth; [exact Hw|]. eapply add_resource_wf; eauto. eapply wf_world_nth; eauto.
+  - destruct (nth_error w mi) as [m|] eqn:Em; cbn [fst]; [|exact Hw].
+    destruct wo as [wi|]; cbn [fst]; [|exact Hw].
+    destruct (Nat.eqb wi mi); cbn [fst]; [exact Hw|].
+    destruct (nth_error w wi) as [wm|] eqn:Ew; cbn [fst]; [|exact Hw].
+    destruct (add_window m (Z.of_nat wi) wm nm addr sparse) as [[m' [[s e] r]]|e] eqn:E; cbn [fst]; [|exact Hw].
+    pose proof (wf_world_nth _ _ _ Hw Em). pose proof (wf_world_nth _ _ _ Hw Ew).
+    apply Forall_set_nth; [apply Forall_set_nth; [exact Hw|]|].
+    + eapply (add_window_wf m _ wm); eauto.
+    + apply set_frozen_wf; auto.
+  - destruct (nth_error w mi) as [m|] eqn:Em; cbn [fst]; [|exact Hw].
+    destruct (align_to m a) as [[m' n]|e] eqn:E; cbn [fst]; [|exact Hw].
+    apply Forall_set_nth; [exact Hw|]. eapply align_to_wf; eauto. eapply wf_world_nth; eauto.
+  - destruct (nth_error w mi) as [m|] eqn:Em; cbn [fst]; [|exact Hw].
+    apply Forall_set_nth; [exact Hw|]. apply set_frozen_wf. eapply wf_world_nth; eauto.
+Qed.
+
+Lemma reachable_wf w : reachable w -> wf_world w.
+Proof.
+  intros (ops & ->). unfold world_after.
+  assert (H : forall w0, wf_world w0 -> wf_world (fold_left (fun w o => fst (wstep w o)) ops w0)).
+  { induction ops as [|o ops IH]; intros w0 H0; cbn [fold_left]; [exact H0|].
+    apply IH. apply wstep_wf. exact H0. }
+  apply H. constructor.
+Qed.
+
+Lemma reachable_in_wf w m : reachable w -> In m w -> wf_map m.
+Proof. intros Hr Hin. apply reachable_wf in Hr. eapply Forall_forall in Hr; eauto. Qed.
